@@ -337,6 +337,29 @@ pub fn cases(seed: u64, tier: Tier) -> Cases {
             }
         }
     }
+    // members whose declared names are not what a case conversion of their Rust names gives back (an acronym, an
+    // underscore, a hyphen, a digit): listed under exactly the declared name, in both member orders, for both readers
+    // and both configurations
+    for (name, payload) in [("userID", Tree::Str("u".into())), ("group_name", Tree::Int(7)), ("kebab-case", Tree::Bool(true)), ("x2Y", Tree::Arr(vec![Tree::Str("a".into())]))] {
+        for type_first in [true, false] {
+            let doc = if type_first { Tree::Obj(vec![("type".into(), Tree::Str(name.into())), (name.to_string(), payload.clone())]) } else { Tree::Obj(vec![(name.to_string(), payload.clone()), ("type".into(), Tree::Str(name.into()))]) };
+            let bytes = serde_json::to_vec(&doc).unwrap();
+            let mut outs = vec![];
+            for cfg in ["plain", "exhaustive"] {
+                for server in [false, true] {
+                    outs.push(match g.de_ser("Odd", cfg, server, &bytes) {
+                        Ok(Ok(d)) => format!("ok {}", d),
+                        Ok(Err(e)) => format!("err {}", e.chars().take(80).collect::<String>()),
+                        Err(_) => "panic".to_string(),
+                    });
+                }
+            }
+            cs.push("union:odd-member-names", "noop".into(), "noop".into(), true, format!("Odd from {}", String::from_utf8_lossy(&bytes)));
+            if !(outs[0].starts_with("ok") && outs.iter().all(|o| o == &outs[0]) && outs[0].contains(&format!("(s,{})", hex(name.as_bytes())))) {
+                cs.fail_last("union:listed-differs-between-modes", format!("the listed member {:?} of Odd: plain client / plain server / exhaustive client / exhaustive server give {:?}", name, outs));
+            }
+        }
+    }
     // an unknown variant whose payload holds doubles that need all their digits: the digits written back are the
     // digits read (compared as text: no second parser in between)
     {
